@@ -14,8 +14,11 @@ import sys
 sys.path.insert(0, os.path.dirname(os.path.abspath(__file__)))
 sys.path.insert(0, os.path.join(os.environ.get("EMBIT_REPO", "/repo"), "src"))
 
+import re  # noqa: E402
+
 import c19ops  # noqa: E402
 import aliasfacts  # noqa: E402
+import sharedstate  # noqa: E402
 
 
 def shared_objects():
@@ -44,6 +47,34 @@ def shared_objects():
 
 SHARED = shared_objects()
 PICTURE = [repr(v) for _, v in SHARED]
+
+
+def inventory():
+    """every module-level binding and class-level attribute (mutable containers, instances, identity of every binding) with
+    its import-time picture: the same inventory the shared-state translator classifies (harness/sharedstate.py)"""
+    mods, _ = aliasfacts.embit_modules()
+    trees = {}
+    for mod in mods:
+        try:
+            trees[mod.__name__] = aliasfacts.ast_functions(mod)[0]
+        except Exception:
+            pass
+    return sharedstate.Inventory(mods, trees)
+
+
+def benign_memo_tables():
+    """module- / class-level memo dictionaries the translator probed as holding immutable values only: they grow by
+    design and no answer depends on them (kind `.moduleMemo false`, probe confirmedSafe in the generated facts)"""
+    p = os.path.join(os.path.dirname(os.path.dirname(os.path.abspath(__file__))), "lean", "EmbitModel", "Generated", "AliasFacts.lean")
+    try:
+        src = open(p).read()
+    except OSError:
+        return set()
+    return set(re.findall(r'name := "modmemo:[^"\[]*\[([^"\]]*)\]", kind := \.moduleMemo false, probe := \.confirmedSafe', src))
+
+
+INVENTORY = inventory()
+BENIGN = benign_memo_tables()
 
 
 def in_child(fn):
@@ -79,7 +110,10 @@ def in_child(fn):
 
 def live(ops):
     res = c19ops.run_live(ops)
-    changed = [n for (n, v), pic in zip(SHARED, PICTURE) if repr(v) != pic]
+    changed = [n for (n, v), pic in zip(SHARED, PICTURE) if repr(v) != pic and n not in BENIGN]
+    for n, what in INVENTORY.changed():
+        if n not in changed and n not in BENIGN:
+            changed.append(n)
     return {"live": res, "defaults": changed}
 
 
